@@ -14,6 +14,9 @@ what pymtl3 did).
   3. code -> spec: the observed outcomes and, for the simulated variants, the value of every net
      member after sim_eval_combinational() and sim_tick() under DefaultPassGroup with random
      inputs, are validated by ElabTrace (NetCoherent: member value = writer value).
+  Designs with @s.func helper functions are part of the grid: a net member written only through a
+  helper (directly, through a wrapper, through a diamond) is the net's writer, and every design
+  has a seeded chance of a twin in which writes of a block move into helpers (same result).
   4. canaries: swapped writer, dropped member, flipped member value, rejected-legal.
 C08's premise is a design without defects: designs Elab.tla classifies as defective (two drivers of
 a bit, no driver, loop, port rule, ...) are classified (they exercise the Conflict / Stuck actions)
@@ -55,6 +58,14 @@ def grid(tier):
     # simulated values checked here (C09 itself only looks at accept / reject / error class)
     c09 = [d for d in g.c09_grid() + g.c09_extras() if any(st["k"] == "c" for st in d.stmts)]
     ds += c09 if not quick else [c09[i] for i in sorted(R.sample(range(len(c09)), 90))]
+    # @s.func helpers (the writes of a helper belong to every block that reaches it): the writer of
+    # a net may be known only through a helper.  The call-graph shapes, the helper cells of C09's
+    # grid that have connections, and twins of the designs above with some writes of a block moved
+    # into helpers (same nets, same writers, same values expected)
+    RF = rng("c08-func")
+    fg = [d for d in g.func_grid() if any(st["k"] == "c" for st in d.stmts)]
+    twins = g.helperized(ds, 0.25)
+    ds += g.func_shapes(core=quick) + (fg if not quick else [fg[i] for i in sorted(RF.sample(range(len(fg)), 60))]) + twins
     # drop duplicates (same canonical text)
     seen, out = set(), []
     for d in ds:
@@ -62,7 +73,7 @@ def grid(tier):
         if k not in seen:
             seen.add(k)
             out.append(d)
-    return out, len(cells)
+    return out, len(cells), len(twins)
 
 
 def _canaries(res, info):
@@ -110,7 +121,9 @@ def _canaries(res, info):
 
 def run(res, tier):
     quick = tier == "quick"
-    designs, ncells = grid(tier)
+    designs, ncells, ntwins = grid(tier)
+    res.note("helperized_twins", ntwins)
+    res.note("designs_with_helper_functions", sum(1 for D in designs if D.has_helpers()))
     cap = 48 if quick else 384
     with scratch():
         info = g.check_designs(res, designs, prop="C08", cap=cap, nsim=2 if quick else 4, ncyc=3 if quick else 5,
@@ -147,7 +160,9 @@ def run(res, tier):
              "a sample (quick) or all (thorough) of the %d chain cells src->X.v1; X.v2->Y.w1; Y.w2->sink over "
              "overlapping view pairs of 4/8-bit and struct signals at three hierarchy placements, and seeded "
              "legal-biased random statement sets (<=4 connects, <=2 writing blocks, 2-3 hierarchy levels, 40%% "
-             "mutated) and the designs with connections of C09's defect grid (quick: 90 of them); all are classified "
+             "mutated) and the designs with connections of C09's defect grid (quick: 90 of them), the @s.func helper call-graph "
+             "shapes and helper cells of that grid, and twins of a quarter of all these with some writes of a block "
+             "moved into helper functions; all are classified "
              "by Elab.tla, those without defects are elaborated for every statement permutation x side flip up to "
              "the cap and simulated" % ncells)
     res.assume("designs whose permutations x flips exceed the cap (%d) are sampled (identity and reversal always "
